@@ -172,6 +172,14 @@ def c03_3(rep, ix, M, cc, branches):
         te = TermEval(single_accessors(cc, label), ctxvar=arg)
         walks = [n for s_ in br.body for n in ast.walk(s_) if isinstance(n, (ast.While, ast.For))]
         rebinds = [n for s_ in br.body for n in ast.walk(s_) if isinstance(n, ast.Assign) and any(isinstance(t, ast.Name) and t.id == arg for t in n.targets)]
+        # ... or hands its own context to a helper of the package that loops over / descends the tree
+        for s_ in br.body:
+            for c_ in ast.walk(s_):
+                if isinstance(c_, ast.Call) and isinstance(c_.func, ast.Name) and any(isinstance(a_, ast.Name) and a_.id == arg for a_ in c_.args):
+                    hq = ix.resolve_name(f.mod, c_.func.id)
+                    h = ix.funcs.get(hq) if hq else None
+                    if h is not None and h.qual != f.qual and any(isinstance(n, (ast.While, ast.For)) for n in ast.walk(getattr(h, "orig", None) or h.node)):
+                        walks.append(c_)
         if walks or rebinds:
             w = (walks + rebinds)[0]
             rep.bad(R, ix.site(f, w), "#%s applies its operator to its own two children, each evaluated once (the grouping is the parse tree's)" % label,
